@@ -378,7 +378,7 @@ class Time(Parameterized):
         if self._exhausted is None:
             self._exhausted = False
         elif (self._time + timestep) <= self.until:
-            self._time += timestep
+            self._time = self._time + timestep
         else:
             self._exhausted = None
             raise StopIteration
